@@ -8,7 +8,7 @@ from tie.framework import g_bool, g_list, g_opt, g_pair, g_str, g_Z
 
 PROP = "C07"
 IMPORTS = "From JV Require Import Lib.Base Model.C07Decl Model.C07Parse Spec.C07Spec Corr.C07Judge."
-RULE = ("seeded member lists under group keys g, grp, my_g, my-g, c, h, p: 1-5 leaves (names with shared prefixes and a "
+RULE = ("seeded member lists under group keys g, grp, my_g, my-g, c, h, p, s (s may equal the nested member's name): 1-5 leaves (names with shared prefixes and a "
         "leading underscore; types int, str, bool, Optional[int|str|List[int]], List[int|str]; defaults conforming / None "
         "/ absent; ~30% lists that the signature rules rewrite), in ~22% one dataclass-typed member (a nested sub-group of "
         "1-3 leaves, with or without a default instance, at a random position), in ~20% (50% of the nested ones) "
@@ -27,7 +27,13 @@ RULE = ("seeded member lists under group keys g, grp, my_g, my-g, c, h, p: 1-5 l
         "nested component) was USED on its own before being attached — parse_env, parse_args with env, plain "
         "parse_args, help, get_defaults or dump, with default_env=True / env_prefix=COMPONENT — or was first OFFERED to "
         "another parent that refuses it (ActionParser conflicting keys, ValueError) — which must not change "
-        "anything (the model compilers do not depend on it). non-trivial = table case with >=2 leaves or run case with a non-empty input; distinct = distinct "
+        "anything (the model compilers do not depend on it); refused_self = the component was offered to ITSELF "
+        "(ValueError). Each declaration also carries a VARIANT of how the signature styles' type is made, which the "
+        "model compilers do not take either: the dataclass style's type is a dataclass, a @final class, an attrs class "
+        "or a pydantic model (is_dataclass_like accepts all four); the class style's default= is a dict, a Namespace or "
+        "a lazy_instance; in ~30% the class / dataclass-like type has 1-2 EXTRA parameters (any type, with or without "
+        "default) that the declaration skips by skip={names} or skip={number of leading parameters} (with skip={names} "
+        "and a complete default= mapping the mapping names them too). non-trivial = table case with >=2 leaves or run case with a non-empty input; distinct = distinct "
         "(declaration, input, observation)")
 TRUSTED = [
     "Coq 8.16.1 kernel + vm_compute",
@@ -59,6 +65,11 @@ ASSUMPTIONS = [
     "the only construction history modelled as irrelevant is a stand-alone USE of the inner-parser style's component "
     "parser before attaching (parse / help / defaults / dump) or a refused attach to another parent; modifying it after "
     "attaching, or a SUCCESSFUL attach of one component to two parents, is not generated",
+    "the signature styles' type variants (kind of dataclass-like type, dict / Namespace / lazy-instance default=, "
+    "skipped extra parameters) are harness dimensions the model is constant in: that they are irrelevant is tied, not "
+    "proved; attrs / pydantic types are used only for flat declarations without '_' names (both libraries rename or hide "
+    "such fields); a @final class takes its default= as a complete mapping (an instance is refused by design); a lazy "
+    "instance is only used when every parameter it does not name has a default",
     "the top-level 'cfg' entry of the result (list of config paths) is the same in all styles and is not compared",
     "exception classes and message texts are not compared (accept / reject / exit / other)",
 ]
@@ -72,7 +83,7 @@ FINDING_CLASSES = {
 JUDGE = "judge"
 STYLES = ["dotted", "dcls", "cls", "inner"]
 
-GKEYS = ["g", "g", "g", "grp", "my_g", "my-g", "c", "h", "p"]
+GKEYS = ["g", "g", "g", "grp", "my_g", "my-g", "c", "h", "p", "s", "my-g"]   # "s" is also a sub-group name: g.g-style paths
 NAMES = ["a", "b", "al", "alpha", "beta", "d", "n", "_p", "x1", "a_b", "cf"]
 TYPES = ["int", "str", "bool", ["opt", "int"], ["opt", "str"], ["list", "int"], ["opt", ["list", "int"]], ["list", "str"]]
 
@@ -387,6 +398,13 @@ FIXED = [
      [{"env": {}, "kind": "args", "args": []}, {"env": {}, "kind": "args", "args": [["--g._p", "3"]]}]),
     ("my-g", [["f", "int", {"nd": 1}], ["a", "int", {"v": 1}]],
      [{"env": {}, "kind": "args", "args": [["--my-g.f", "2"]]}, {"env": {}, "kind": "obj", "obj": {"my_g": {"f": 2}}}]),
+    # hyphenated key x whole-group values (argv, environment, string in a config) whose leaves need conversion
+    ("my-g", [["a", "int", {"v": 1}], ["l", ["list", "int"], {"v": [1]}], ["o", ["opt", "int"], {"v": None}]],
+     [{"env": {}, "kind": "args", "args": [["--my-g", "{\"a\": \"2\", \"l\": [\"12\", 7], \"o\": \"3\"}"]]},
+      {"env": {}, "kind": "args", "args": [["--my-g", "{\"l\": [\"12\"]}"], ["--my-g.l+", "4"]]},
+      {"env": {"APP_MY_G": "{\"a\": \"2\", \"l\": [\"12\", 7]}"}, "kind": "args", "args": [["--my-g.o", "5"]]},
+      {"env": {}, "kind": "obj", "obj": {"my_g": "{\"a\": \"2\", \"l\": [\"12\", 7]}"}},
+      {"env": {}, "kind": "obj", "obj": {"my_g": {"a": "2", "l": ["12", 7], "o": "3"}}}]),
     # declaration-time default overrides, a nested sub-group in the middle
     ("g", NESTED,
      [{"env": {}, "kind": "args", "args": []},
@@ -401,6 +419,14 @@ FIXED = [
 ]
 
 SUBNAMES = ["s", "opt", "sub", "a_s"]
+
+FIXED_VARIANTS = [
+    None,
+    {"dcls_kind": "final", "cls_default": "ns", "skip": {"mode": "names", "extra": [[1, ["zk", "int", {"v": 4}]]]}},
+    {"dcls_kind": "pydantic", "cls_default": "dict", "skip": {"mode": "count", "extra": [[0, ["sk1", "str", {"nd": 1}]]]}},
+    {"dcls_kind": "attrs", "cls_default": "lazy", "skip": None},
+    {"dcls_kind": "dataclass", "cls_default": "ns", "skip": {"mode": "names", "extra": [[0, ["bz", ["list", "int"], {"nd": 1}]], [2, ["a_z", "int", {"v": 0}]]]}},
+]
 
 
 def gen_members(rng, gk):
@@ -446,11 +472,43 @@ def gen_members(rng, gk):
 
 
 HISTORIES = [None, None, None, "parse_env", "parse_args_env", "parse_args", "help", "defaults", "dump", "refused_attach",
-             "refused_attach"]
+             "refused_attach", "refused_self"]
+
+SKIP_NAMES = ["zk", "sk1", "_sk", "a_z", "bz"]
 
 
-def mk_case(t, gk, ms, inp=None, full=False, history=None):
-    c = {"t": t, "gk": gk, "members": ms, "nmembers": py_mnorm(ms), "cls_full": full, "inner_history": history}
+def has_private(ms):
+    return any(f[0].startswith("_") for m in ms for f in (m["fields"] if is_sub(m) else [m]))
+
+
+def gen_variant(rng, ms):
+    """how the signature styles' TYPE is made (the model compilers do not take it: that it is irrelevant is what is
+    tied): the kind of dataclass-like type, dict / Namespace default=, extra parameters that the declaration skips"""
+    r = rng.random()
+    if r < 0.45:
+        kind = "dataclass"
+    elif r < 0.65 or has_private(ms) or any(is_sub(m) for m in ms):
+        kind = rng.choice(["final", "dataclass"])     # attrs / pydantic rename or hide '_' names; nested members stay dataclasses
+    else:
+        kind = rng.choice(["attrs", "pydantic"])
+    skip = None
+    if rng.random() < 0.3:
+        mode = rng.choice(["names", "count"])
+        names = rng.sample(SKIP_NAMES, rng.choice([1, 1, 2]))
+        if kind in ("attrs", "pydantic"):
+            names = [n for n in names if not n.startswith("_")] or ["zk"]
+        extra = []
+        for nm in names:
+            t = rng.choice(TYPES)
+            d = {"nd": 1} if rng.random() < 0.4 else {"v": dflt_for(rng, t)}
+            extra.append([rng.randint(0, len(ms)), [nm, t, d]])
+        skip = {"mode": mode, "extra": extra}
+    return {"dcls_kind": kind, "cls_default": rng.choice(["dict", "ns", "lazy"]), "skip": skip}
+
+
+def mk_case(t, gk, ms, inp=None, full=False, history=None, variant=None):
+    c = {"t": t, "gk": gk, "members": ms, "nmembers": py_mnorm(ms), "cls_full": full, "inner_history": history,
+         "variant": variant}
     if inp is not None:
         c["input"] = inp
     return c
@@ -461,9 +519,12 @@ def generate(rng, tier):
     for k, (gk, ms, inputs) in enumerate(FIXED):
         full = k % 2 == 1
         history = HISTORIES[(2 * k + 3) % len(HISTORIES)]
-        cases.append(mk_case("table", gk, ms, None, full, history))
+        variant = FIXED_VARIANTS[k % len(FIXED_VARIANTS)]
+        if variant and variant["dcls_kind"] in ("attrs", "pydantic") and (has_private(ms) or any(is_sub(m) for m in ms)):
+            variant = dict(variant, dcls_kind="final")
+        cases.append(mk_case("table", gk, ms, None, full, history, variant))
         for inp in inputs:
-            cases.append(mk_case("run", gk, ms, inp, full, history))
+            cases.append(mk_case("run", gk, ms, inp, full, history, variant))
     n_lists = 230 if tier == "quick" else 2600
     for _ in range(n_lists):
         gk = rng.choice(GKEYS)
@@ -475,10 +536,11 @@ def generate(rng, tier):
             continue
         full = rng.random() < 0.5
         history = rng.choice(HISTORIES)   # construction history of the inner-parser style's component parser
-        cases.append(mk_case("table", gk, ms, None, full, history))
+        variant = gen_variant(rng, ms)    # how the signature styles' type is made
+        cases.append(mk_case("table", gk, ms, None, full, history, variant))
         lv = leaves(ms)
         for _ in range(10):
-            cases.append(mk_case("run", gk, ms, gen_input(rng, gk, lv), full, history))
+            cases.append(mk_case("run", gk, ms, gen_input(rng, gk, lv), full, history, variant))
     return cases
 
 
@@ -486,22 +548,22 @@ def generate(rng, tier):
 def observe(cases):
     groups = {}
     for i, c in enumerate(cases):
-        groups.setdefault(json.dumps([c["gk"], case_members(c), c.get("inner_history")]), []).append(i)
+        groups.setdefault(json.dumps([c["gk"], case_members(c), c.get("inner_history"), c.get("variant")]), []).append(i)
     payload_cases, index = [], []
     for key, idxs in groups.items():
         c0 = cases[idxs[0]]
         runs = [i for i in idxs if cases[i]["t"] == "run"]
         ms, nms, full = case_members(c0)
         payload_cases.append({"gk": c0["gk"], "members": ms, "nmembers": nms, "cls_full": full,
-                              "inner_history": c0.get("inner_history"),
+                              "inner_history": c0.get("inner_history"), "variant": c0.get("variant"),
                               "inputs": [cases[i]["input"] for i in runs]})
         index.append((idxs, runs))
-    nchunk = min(fw.JOBS, max(1, len(payload_cases)))
-    chunks = [payload_cases[k::nchunk] for k in range(nchunk)]
-    res = fw.run_impl_parallel("c07_styles.py", [{"cases": ch} for ch in chunks])
-    merged = [None] * len(payload_cases)
-    for k, r in enumerate(res):
-        merged[k::nchunk] = r
+    # many small payloads (<= 40 declarations each, fw.JOBS runner processes at a time): under heavy machine load no
+    # single runner process comes near its time limit (one process per JOBS-th of the thorough tier did: 900 s)
+    size = 40
+    chunks = [payload_cases[k:k + size] for k in range(0, len(payload_cases), size)] or [[]]
+    res = fw.run_impl_parallel("c07_styles.py", [{"cases": ch} for ch in chunks], timeout=2400)
+    merged = [r for part in res for r in part]
     out = [None] * len(cases)
     for (idxs, runs), r in zip(index, merged):
         for i in idxs:
@@ -683,7 +745,9 @@ def describe(case, obs):
          "members: [name,type,default,{o: overriding default}] | {sub: nested dataclass member}": ms,
          "members_as_declared_in_the_dotted_and_inner_parser_styles": nms,
          "class_style_default_dict_is_complete": full,
-         "inner_parser_used_on_its_own_before_attaching": case.get("inner_history")}
+         "inner_parser_used_on_its_own_before_attaching": case.get("inner_history"),
+         "signature_styles_type_variant (kind of dataclass-like type, dict/Namespace default=, skipped extra parameters)":
+             case.get("variant")}
     if case["t"] == "table":
         d["tables_of_the_four_real_parsers"] = obs["tables"]
     else:
@@ -738,6 +802,13 @@ def shrink(case):
     ms, _, full = case_members(case)
     if case.get("inner_history"):
         yield dict(case, inner_history=None)
+    v = case.get("variant")
+    if v:
+        yield dict(case, variant=None)
+        if v.get("skip"):
+            yield dict(case, variant=dict(v, skip=None))
+        if v.get("dcls_kind") not in (None, "dataclass"):
+            yield dict(case, variant=dict(v, dcls_kind="dataclass"))
 
     def with_members(ms2):
         c = {k: v for k, v in case.items() if k not in ("fields", "nfields")}
@@ -811,7 +882,17 @@ META = {
         "parser.set_defaults over the default= mapping gives every parameter exactly its overriding default (no override "
         "lost, none on another parameter), so the signature styles' table equals the inner-parser table built with the "
         "defaults inline. Declarations with a dataclass-typed member (nested sub-group) are modelled by all four "
-        "compilers and by the parser model (leaves under dotted paths) but only TIED by the correspondence (class 7; "
+        "compilers and by the parser model (leaves under dotted paths). Round 6: their TABLES are proved for every member "
+        "list — leaves and dataclass-typed members in any number and order — without declaration-time defaults "
+        "(C07_grouped_tables_equal_nested: add_class_arguments recursing through _add_signature_parameter / "
+        "_create_group_if_requested, the dataclass-typed argument and ActionParser-inside-ActionParser, i.e. "
+        "_move_parser_actions applied twice, build ONE identical table, for the tree as it is and the repaired one; "
+        "C07_grouped_styles_agree_nested: hence the three grouped styles answer EVERY input identically, whole-group and "
+        "whole-sub-group values included; C07_dotted_leaves_of_grouped_table: for every normalised member list, "
+        "overrides and default instances included, the dotted style owns exactly the leaf actions of that table in the "
+        "same order and the same required keys; C07_nested_tables_agree is the statement the judged TABLE cases of such "
+        "declarations are inside: guard table_class = v_class). RUN cases of nested declarations — dotted against "
+        "grouped — and tables of nested declarations WITH default instances / overrides stay tied only (class 7; "
         "C07_nested_tables_example is one kernel-evaluated instance). "
         "Outside the guard the property fails on the faithful model: ..._refuted theorems (kernel-evaluated "
         "witnesses) for the listed findings (hyphen-key-default-override is new); C07_four_styles_agree_fixed / "
@@ -826,12 +907,15 @@ META = {
         "treated as a different declaration, not as a defect. Type conversion is modelled only for "
         "int/str/bool/Optional/List and the YAML/JSON loaders enter as observed finite tables (theorems hold for any "
         "loaders). Dump TEXT equality, exception classes and help output are compared on observations only; "
-        "instantiate_classes, group titles, positional/ActionYesNo/subclass-typed fields, nested groups below the "
-        "group, config FILE paths and empty mappings for undeclared keys (group NAMES are not in the table model: "
+        "instantiate_classes, group titles, positional/ActionYesNo/subclass-typed fields, untyped parameters "
+        "(fail_untyped=False), link targets, conditional (origin) parameters, generic dataclasses, a default instance "
+        "of a dataclass-typed member that differs from the member type's own defaults, config FILE paths and empty mappings for undeclared keys (group NAMES are not in the table model: "
         "parse_object({'my-g': {}}) differs between styles, see notes/C07.md) are outside the statement. Trusted: "
         "Coq kernel/VM, the runner "
         "tie/impl/c07_styles.py and the Gallina printer, the hand-written models. No axioms."),
-    "technique": ("Rocq proof: compilers-to-table equalities by induction on the field list + a simulation proof "
+    "technique": ("Rocq proof: compilers-to-table equalities by induction on the field / member list (nested: both "
+                  "compilers rewritten as table_of of (action, required) pair lists, the signature styles' list being "
+                  "the inner parser's list prefixed member by member) + a simulation proof "
                   "(invariant carried through every parser stage) lifting table equivalence to all inputs; "
                   "kernel-evaluated counter-witnesses; per-case correspondence of tables and runs judged inside Coq"),
 }
